@@ -96,6 +96,7 @@ def reachable_min(A, v):
 
 
 def oracle(A, v, m, d, dt, hermA, lam_reach_min=None):
+    _alias_ok = True
     """
     A: matrix (Hermitian iff hermA), v: non-zero start vector, m >= 1, d: Krylov dimension of (A, v), dt: complex time argument.
     Returns None or a description of the violated clause of C15.
@@ -108,6 +109,10 @@ def oracle(A, v, m, d, dt, hermA, lam_reach_min=None):
     nA = max(1.0, float(np.linalg.norm(A, 2)) if n else 1.0)
 
     def Afunc(x):
+        # the map may return its argument (or a view of it) when it acts as the identity on x: a matrix-free `Afunc` such as
+        # `lambda x: x` is a legitimate Hermitian map (finding F8: the iterations used to update Afunc's return value in place)
+        if _alias_ok and np.array_equal(A, np.identity(len(x))):
+            return x
         return A @ x
 
     def run(f):
@@ -201,6 +206,12 @@ def oracle_cases(rng, hints):
             for mm in sorted({m, 1, d, d + 1, len(v), len(v) + 2}):
                 if mm >= 1:
                     yield M, v, mm, d, dt, hf, None
+    # identity map implemented as `lambda x: x` (returns its argument): Krylov dimension 1, exp(dt) v expected
+    for n in (1, 3, 5):
+        v = rng.standard_normal(n) + (1j * rng.standard_normal(n) if n > 1 else 0)
+        for hf in (True, False):
+            for mm in (1, 2, n + 1):
+                yield np.identity(n), v, mm, 1, complex(rng.choice([0.5, 0.3j, -0.2 + 0.1j])), hf, 1.0
     while True:
         hermA = bool(rng.random() < 0.65)
         r = rng.random()
